@@ -15,3 +15,13 @@ Print Assumptions C20_chain_max_meaning.
 Theorem C20_supported : forall (atom F : Type) (fsat : interp atom -> interp atom -> F -> Prop), (forall (H T : interp atom) (f : F), subi atom H T -> fsat H T f -> fsat T T f) -> forall (P : prog atom F) (T : interp atom) (a : atom), stable atom F fsat P T -> T a -> exists r : rule atom F, P r /\ head_atom atom (hd atom F r) a /\ bsat atom F fsat T T (bd atom F r).
 Proof. exact (@Cleanup.supported). Qed.
 Print Assumptions C20_supported.
+
+From NGO Require Import Syntax.Ast Sem.Sym Sem.Sat Link.Ground.
+
+Theorem C20_supported_nonground : forall (sym_lt : sym -> sym -> Prop) (P : program) (I : list gatom) (T : interp) (a : gatom), simple_prog P = true -> stable sym_lt P I T -> T a -> In a I \/ (exists (line : nat) (h : head) (b : list bodyelem) (s : subst), In (SRule line h b) P /\ head_derives s h a /\ body_sat sym_lt (gvars_rule h b) T T s b).
+Proof. exact (@supported_nonground). Qed.
+Print Assumptions C20_supported_nonground.
+
+Theorem C20_ground_stable_iff : forall (sym_lt : sym -> sym -> Prop) (P : program), simple_prog P = true -> forall (I : list gatom) (T : interp), stable sym_lt P I T <-> Cleanup.stable gatom gF gsat (ground_prog sym_lt P I) T.
+Proof. exact (@ground_stable_iff). Qed.
+Print Assumptions C20_ground_stable_iff.
